@@ -65,4 +65,18 @@ pub(crate) mod verif_rig_multi {
     pub(crate) fn last_count(ms: &MultiState) -> usize {
         target_last(&ms.draw_target)
     }
+
+    // ---- stand-in for MultiState::remove_idx in the row-accounting harnesses: records which slots the operation removed
+    //      (the slot/ordering bookkeeping of the real remove_idx is decided separately by c02_remove_step) ----
+    pub(crate) static mut REMOVED: [usize; 4] = [usize::MAX; 4];
+    pub(crate) static mut NREMOVED: usize = 0;
+    pub(crate) fn record_remove_idx(ms: &mut MultiState, idx: usize) {
+        unsafe {
+            if NREMOVED < 4 {
+                REMOVED[NREMOVED] = idx;
+            }
+            NREMOVED += 1;
+        }
+        ms.members[idx].is_zombie = false;
+    }
 }
